@@ -80,7 +80,7 @@ theorem C08_validation_matrix (o : ColOpts) :
         validateChange o .refTree = .invalidInput ∧ validateChange o (.derefTree e) = .invalidInput) ∧
     -- unrepresentable nodes, append-only and missing roots
     (mt = true → ∀ f, (validateChange o (.insertTree f) = .ok ↔ f ≤ 255)) ∧
-    (mt = true → validateChange o .refTree = .ok) ∧
+    (mt = true → (validateChange o .refTree = .ok ↔ (o.appendOnly = true ∨ o.refCounted = true))) ∧
     (mt = true → ∀ e, (validateChange o (.derefTree e) = .ok ↔ (o.appendOnly = false ∧ e = true))) := by
   obtain ⟨bt, mt, rc, ao⟩ := o
   cases bt <;> cases mt <;> cases rc <;> cases ao <;> simp [validateChange] <;> omega
